@@ -485,8 +485,8 @@ func c19Chunks(tier string) []SeqChunk {
 	lengths := []int{0, 1, 3, 6}
 	scripts := [][]int{{1}, {2}, {4}, {0, 1, 2}, {4, 1}}
 	if tier == "thorough" {
-		lengths = []int{0, 1, 2, 3, 4, 5, 6}
-		scripts = append(scripts, []int{1, 0, 0, 4}, []int{2, 4, 1}, []int{0})
+		lengths = []int{0, 1, 2, 3, 4, 5, 6, 7, 8, 9}
+		scripts = append(scripts, []int{1, 0, 0, 4}, []int{2, 4, 1}, []int{0}, []int{3}, []int{8}, []int{0, 0, 1}, []int{1, 2, 3}, []int{5, 0, 2})
 	}
 	var chunks []SeqChunk
 	for kind := 0; kind < 4; kind++ {
@@ -524,7 +524,7 @@ func init() {
 	SeqFamilies["C19"] = c19Chunks
 	register(&Family{
 		Property: "C19",
-		Rule: "payload lengths {0,1,3,6} (thorough 0..6) x read/write size scripts {1,2,4,[0,1,2],[4,1]} (+3 thorough) x injected error at call {none,1,2,3} x wrapped value {plain, +Close, +WriteTo/ReadFrom, both} x total {exact, larger, smaller (cap), unknown then SetTotal(-1,true)} x moving-average decorator {absent, plain, wrapped two levels, two decorators on one bar} x driver {direct calls, io.Copy}; the underlying value advances the virtual clock by a scripted amount inside every call. " +
+		Rule: "payload lengths {0,1,3,6} (thorough 0..9) x read/write size scripts {1,2,4,[0,1,2],[4,1]} (+8 thorough) x injected error at call {none,1,2,3} x wrapped value {plain, +Close, +WriteTo/ReadFrom, both} x total {exact, larger, smaller (cap), unknown then SetTotal(-1,true)} x moving-average decorator {absent, plain, wrapped two levels, two decorators on one bar} x driver {direct calls, io.Copy}; the underlying value advances the virtual clock by a scripted amount inside every call. " +
 			"Oracle: bytes, per-call counts and errors identical on both sides; Close forwarded exactly once (only if the wrapped value has it); the proxy's dynamic type offers WriteTo/ReadFrom iff the wrapped value does and io.Copy uses it; Current == bytes transferred (capped at a known total); the moving-average decorator received exactly the multiset of (n, duration) of the calls made while the bar was running. Every case is also executed on the unmodified package (digest without durations).",
 		Items: func(tier string) []Item { return seqItems("C19", tier) },
 	})
